@@ -34,6 +34,8 @@ class CsrEvMonWorld(World):
     def gen_config(self, rng, prop):
         dw = rng.choice([4, 8, 16, 32])
         n = rng.range(0, 3 * dw if (dw <= 8 or rng.chance(0.15)) else 20)
+        if rng.chance(0.15):
+            n = rng.range(4 * dw + 1, 7 * dw)        # five to seven mask words
         return {"dw": dw, "al": rng.choice([0, 0, 1, 2]),
                 "srcs": [rng.choice(TRIGGERS) for _ in range(n)],
                 "trigger": rng.choice(TRIGGERS),
